@@ -47,7 +47,7 @@ func hxb(b []byte) string {
 // cachedSites: the extraction (go list -export + type checking, tens of seconds on a loaded machine) is keyed by the
 // content of every non-test Go file of the analysed packages plus go.mod; a changed file always re-extracts.
 // extractorVersion is part of the cache key: bump it whenever sites.go changes what it lists.
-const extractorVersion = "3-field-write"
+const extractorVersion = "4-ncpu"
 
 func cachedSites(repo string) ([]string, error) {
 	h := sha256.New()
